@@ -229,8 +229,10 @@ def graph_spec(tier: str, light: bool = False) -> Dict[str, Any]:
     lx = loop_exit_family(3, 3) if tier == "quick" else loop_exit_family(4, 3)
     lists["LX"] = lx if not light else lx[::4]
     try:
-        from .progs import big_graphs
+        from .progs import arm_cfgs, big_graphs
         lists["BIG"] = big_graphs(tier)
+        arms = arm_cfgs()
+        lists["ARMS"] = arms if not light else arms[::4]
     except ImportError:
         pass
     try:
